@@ -139,6 +139,31 @@ def run(ctx):
                         "obtained from an owner the action itself keeps alive (shared with C13.d)", floor=2)
         fd_owner(_Alias(c, "C01.i"))
     ctx.guarded("C01.i", rule_i)
+
+    def rule_j(c):
+        """when removal returns — whatever it returns — the action is quiescent: a removal that found nothing to remove must still have
+        serialised behind the remover that did (and behind its grace period). So no return path of a public removal function may avoid the
+        writer lock of the data snapshot."""
+        from . import reg
+        from .C02 import registering
+        c.rule("C01.j", "every return path of a public removal function passes through the acquisition of the snapshot's writer lock (no lock-free "
+                        "'nothing to do' fast path: it would return while another remover's grace period is still running)", floor=2)
+        L = reg.locks(F)
+        wr = L.writers(reg.DATA_T)
+        regids = {i.id for _, i, _ in registering(F)}
+        n = 0
+        for fn, i, nm, sites_ in reg.mutators(F, reg.DATA_T):
+            if i.id in regids:
+                continue
+            n += 1
+            c.fn(i)
+            wb = {bb for bb, t in reg.calls_to(nm, wr)}
+            r = cfg.reachable(nm, 0, avoid=wb, unwind=False) & set(nm.exits())
+            c.check(bool(wb) and not r, "C01.j", "removal-serialised@%s" % keyname(i.name), "%s takes the writer lock on every path to return" % fn["path"].split("::")[-1], i.span,
+                    {"return_reachable_without_writer_lock": cfg.path(nm, 0, sorted(r)[0], avoid=wb, unwind=False) if r else None})
+        if n < 2:
+            raise AnchorLost("public removal functions: %d" % n)
+    ctx.guarded("C01.j", rule_j)
     ctx.note("not decided: that the protocol as a whole is a correct grace period under all interleavings (RCU proof); the value-level "
              "logic of the barrier (exit condition 'all slots seen zero', sticky seen_zero) — computed through iterator combinators whose "
              "meaning is not visible in the CFG shape")
